@@ -79,3 +79,120 @@ package cache
 //@   ensures [db-not-found-remembered] calls(query) == 1 && ret(query) == n.errNotFound ==> calls(n.setCacheWithNotFound) == 1 && arg(setCacheWithNotFound, 2) == key && result1 == n.errNotFound && calls(cacheVal) == 0
 //@   ensures [db-error-not-cached] calls(query) == 1 && ret(query) != nil && ret(query) != n.errNotFound ==> result1 == ret(query) && calls(cacheVal) == 0 && calls(setCacheWithNotFound) == 0
 //@   ensures [db-row-cached] calls(query) == 1 && ret(query) == nil ==> calls(cacheVal, val) == 1 && before(query, cacheVal)
+
+// doGetCache: a Redis failure is returned as it is (not turned into a miss); an empty value is a miss; the
+// placeholder is reported as such (so the caller answers not-found without asking the DB); anything else is decoded.
+//@ func (node).doGetCache
+//@   prop C06
+//@   opaque IncrTotal, IncrMiss, IncrHit, processCache, GetCtx
+//@   ensures [read-this-key] calls(n.rds.GetCtx) == 1 && arg(n.rds.GetCtx, 1) == ctx && arg(n.rds.GetCtx, 2) == key
+//@   ensures [redis-failure-returned] ret(GetCtx, 1) != nil ==> result == ret(GetCtx, 1) && calls(processCache) == 0
+//@   ensures [empty-is-a-miss] ret(GetCtx, 1) == nil && len(ret(GetCtx, 0)) == 0 ==> result == n.errNotFound && calls(processCache) == 0
+//@   ensures [placeholder-reported] ret(GetCtx, 1) == nil && ret(GetCtx, 0) == "*" ==> result == errPlaceholder && calls(processCache) == 0
+//@   ensures [value-decoded] ret(GetCtx, 1) == nil && len(ret(GetCtx, 0)) > 0 && ret(GetCtx, 0) != "*" ==> calls(n.processCache, ctx, key, ret(GetCtx, 0), val) == 1 && result == ret(processCache)
+// GetCtx: the placeholder is the configured not-found error to the caller.
+//@ func (node).GetCtx
+//@   prop C06
+//@   opaque doGetCache
+//@   ensures [placeholder-is-not-found] ret(doGetCache) == errPlaceholder ==> result == n.errNotFound
+//@   ensures [otherwise-as-read] ret(doGetCache) != errPlaceholder ==> result == ret(doGetCache)
+//@   ensures [reads-once] calls(n.doGetCache, ctx, key, val) == 1
+// processCache: an undecodable cached value is deleted and reported as a miss, so that it is reloaded from the DB.
+//@ func (node).processCache
+//@   prop C06
+//@   opaque Sprintf, WithContext, Error, Errorf, Report, DelCtx, Unmarshal
+//@   ensures [decoded] ret(jsonx.Unmarshal) == nil ==> result == nil && calls(DelCtx) == 0
+//@   ensures [invalid-removed-and-missed] ret(jsonx.Unmarshal) != nil ==> result == n.errNotFound && calls(n.rds.DelCtx) == 1 && len(arg(n.rds.DelCtx, 2)) == 1 && arg(n.rds.DelCtx, 2)[0] == key
+// doTake: everything goes through the node's single-flight barrier under the cache key; an error of the shared
+// execution is everybody's error; the caller that executed has its value filled in already, the others decode the
+// shared result.
+//@ func (node).doTake
+//@   prop C06
+//@   opaque WithContext, IncrTotal, IncrHit, DoEx, Unmarshal
+//@   ensures [single-flight-per-key] calls(n.barrier.DoEx) == 1 && arg(n.barrier.DoEx, 0) == key
+//@   ensures [shared-error] ret(DoEx, 2) != nil ==> result == ret(DoEx, 2) && calls(jsonx.Unmarshal) == 0
+//@   ensures [executor-done] ret(DoEx, 2) == nil && ret(DoEx, 1) ==> result == nil && calls(jsonx.Unmarshal) == 0
+//@   ensures [sharer-decodes-the-shared-result] ret(DoEx, 2) == nil && !ret(DoEx, 1) ==> calls(jsonx.Unmarshal) == 1 && arg(jsonx.Unmarshal, 1) == val && result == ret(jsonx.Unmarshal)
+// TakeCtx / TakeWithExpireCtx: what is cached after a DB hit is the loaded value, under this key, with the node's
+// jittered expiry (the same expiry that was given to the query in the WithExpire form).
+//@ func (node).TakeCtx$1
+//@   prop C06
+//@   opaque SetCtx
+//@   ensures [caches-loaded-value] calls(n.SetCtx, ctx, key, val) == 1 && result == ret(SetCtx)
+//@ func (node).TakeCtx
+//@   prop C06
+//@   opaque doTake
+//@   ensures [through-doTake] calls(n.doTake) == 1 && arg(n.doTake, 1) == ctx && arg(n.doTake, 2) == val && arg(n.doTake, 3) == key && arg(n.doTake, 4) == query && result == ret(doTake)
+//@ func (node).TakeWithExpireCtx
+//@   prop C06
+//@   opaque doTake, aroundDuration
+//@   ensures [jitter-of-configured-expiry] calls(n.aroundDuration, n.expire) == 1
+//@   ensures [through-doTake] calls(n.doTake) == 1 && arg(n.doTake, 1) == ctx && arg(n.doTake, 2) == val && arg(n.doTake, 3) == key && result == ret(doTake)
+//@ func (node).TakeWithExpireCtx$1
+//@   prop C06
+//@   ensures [query-gets-that-expiry] calls(query, val, expire) == 1 && result == ret(query)
+//@ func (node).TakeWithExpireCtx$2
+//@   prop C06
+//@   opaque SetWithExpireCtx
+//@   ensures [cached-with-that-expiry] calls(n.SetWithExpireCtx, ctx, key, val, expire) == 1 && result == ret(SetWithExpireCtx)
+//@ func (node).SetCtx
+//@   prop C06
+//@   opaque SetWithExpireCtx, aroundDuration
+//@   ensures [jittered-configured-expiry] calls(n.aroundDuration, n.expire) == 1 && calls(n.SetWithExpireCtx, ctx, key, val, ret(aroundDuration)) == 1 && result == ret(SetWithExpireCtx)
+//@ func (node).aroundDuration
+//@   prop C06
+//@   opaque AroundDuration
+//@   ensures [node-deviation] calls(n.unstableExpire.AroundDuration, expire) == 1 && result == ret(AroundDuration)
+// The background retry deletes exactly the keys it was given, on this node, and reports Redis' verdict.
+//@ func (node).asyncRetryDelCache
+//@   prop C06
+//@   opaque AddCleanTask
+//@   ensures [retry-task-for-these-keys] calls(AddCleanTask) == 1 && arg(AddCleanTask, 1) == keys
+//@ func (node).asyncRetryDelCache$1
+//@   prop C06
+//@   opaque Del
+//@   ensures [deletes-those-keys] calls(n.rds.Del) == 1 && arg(n.rds.Del, 1) == keys && result == ret(Del, 1)
+
+// ---------------- cache cluster (C06): every operation goes to the node the dispatcher assigns to the key ----------------
+//@ func (cluster).GetCtx
+//@   prop C06
+//@   opaque Get
+//@   ensures [node-of-the-key] calls(c.dispatcher.Get, key) == 1
+//@   ensures [no-node] !ret(Get, 1) ==> result == c.errNotFound && calls(GetCtx) == 0
+//@   ensures [same-operation-on-that-node] ret(Get, 1) ==> calls(ret(Get, 0).GetCtx, ctx, key, val) == 1 && result == ret(GetCtx)
+//@ func (cluster).SetCtx
+//@   prop C06
+//@   opaque Get
+//@   ensures [node-of-the-key] calls(c.dispatcher.Get, key) == 1
+//@   ensures [no-node] !ret(Get, 1) ==> result == c.errNotFound && calls(SetCtx) == 0
+//@   ensures [same-operation-on-that-node] ret(Get, 1) ==> calls(ret(Get, 0).SetCtx, ctx, key, val) == 1 && result == ret(SetCtx)
+//@ func (cluster).SetWithExpireCtx
+//@   prop C06
+//@   opaque Get
+//@   ensures [node-of-the-key] calls(c.dispatcher.Get, key) == 1
+//@   ensures [no-node] !ret(Get, 1) ==> result == c.errNotFound && calls(SetWithExpireCtx) == 0
+//@   ensures [same-operation-on-that-node] ret(Get, 1) ==> calls(ret(Get, 0).SetWithExpireCtx, ctx, key, val, expire) == 1 && result == ret(SetWithExpireCtx)
+//@ func (cluster).TakeCtx
+//@   prop C06
+//@   opaque Get
+//@   ensures [node-of-the-key] calls(c.dispatcher.Get, key) == 1
+//@   ensures [no-node] !ret(Get, 1) ==> result == c.errNotFound && calls(TakeCtx) == 0
+//@   ensures [same-operation-on-that-node] ret(Get, 1) ==> calls(ret(Get, 0).TakeCtx, ctx, val, key, query) == 1 && result == ret(TakeCtx)
+//@ func (cluster).TakeWithExpireCtx
+//@   prop C06
+//@   opaque Get
+//@   ensures [node-of-the-key] calls(c.dispatcher.Get, key) == 1
+//@   ensures [no-node] !ret(Get, 1) ==> result == c.errNotFound && calls(TakeWithExpireCtx) == 0
+//@   ensures [same-operation-on-that-node] ret(Get, 1) ==> calls(ret(Get, 0).TakeWithExpireCtx, ctx, val, key, query) == 1 && result == ret(TakeWithExpireCtx)
+// Del: one key -> that key's node; several keys -> each key is grouped under its own node (in order) and each
+// group is deleted on its node; keys without a node and failing groups are reported together.
+//@ func (cluster).DelCtx
+//@   prop C06
+//@   opaque Get, Errorf, Add, Err
+//@   ensures [none] len(keys) == 0 ==> result == nil && calls(Get) == 0
+//@   ensures [single-on-its-node] len(keys) == 1 && ret(Get, 1) ==> calls(c.dispatcher.Get, keys[0]) == 1 && calls(ret(Get, 0).DelCtx) == 1 && arg(ret(Get, 0).DelCtx, 0) == ctx && len(arg(ret(Get, 0).DelCtx, 1)) == 1 && arg(ret(Get, 0).DelCtx, 1)[0] == keys[0] && result == ret(DelCtx)
+//@   ensures [single-no-node] len(keys) == 1 && !ret(Get, 1) ==> result == c.errNotFound && calls(DelCtx) == 0
+//@   loop 1 invariant -1 <= rangeindex && rangeindex <= len(keys)
+//@   loop 1 iteration-ensures [key-grouped-under-its-node] calls(c.dispatcher.Get, at_head(keys[rangeindex + 1])) == 1 && (ret(Get, 1) ==> len(nodes[ret(Get, 0)]) == at_head(len(nodes[ret(Get, 0)])) + 1 && nodes[ret(Get, 0)][len(nodes[ret(Get, 0)]) - 1] == at_head(keys[rangeindex + 1])) && (!ret(Get, 1) ==> calls(Add) == 1)
+//@   loop 2 iteration-ensures [group-deleted-on-its-node] calls(n.DelCtx) == 1 && arg(n.DelCtx, 0) == ctx && arg(n.DelCtx, 1) == ks && (ret(DelCtx) != nil) == (calls(Add) == 1)
+//@   ensures [batch-verdict] len(keys) > 1 ==> result == ret(Err)
